@@ -25,6 +25,26 @@ REGRESSIONS = ["A = B(P=-0.a001)", "A = B(P = -0.0x, Q = [-0.0, -0.])", "A = B(x
                "A = B(P = trailing  \n)", "A = B(P = a b  , Q = 1)"]
 
 
+# texts that differ only in blanks / line breaks that are content (inside quotes) or that end a comment: loaded one after the other in one process
+HISTORY = ['A = B(P = "Dry season")', 'A = B(P = "Dry  season")', 'A = B(P = "Dry\tseason")', "A = B(P = 'Dry season')", 'A = B(P = "Dry season" )',
+           "A = B(x = 1) # c\nC = D(y = 2)", "A = B(x = 1) # c C = D(y = 2)", "A = B(x = 1)\n# c\nC = D(y = 2)", "A = B(\n  x = 1\n)\nC = D(\n  y = [2,\n 3]\n)",
+           "A = B(x = 1)\nC = D(y = [2, 3])", "A = B(x = [k: 1, m: 2.5, n: v, o: \"7\"])", "A = B(x = [k: 7])", 'A = B(x = [k: "7"])', "A = B(x = [k: 7.0])",
+           "A = B(P = [[k: 1, m: x], 2])", "A = B(P = [1, [[k: 2.5]], [m: \"q r\", n: 3]])"]
+
+
+def respace(ast, rng):
+    """the same program with the blanks inside its strings changed (content, not layout)"""
+    def val(v):
+        if v.kind == "str" and v.how != "bare" and " " in v.v:
+            return render.Val("str", v.v.replace(" ", rng.choice(["  ", "\t", " \n", "   "])), v.how)
+        if v.kind == "list":
+            return render.Val("list", [val(x) for x in v.v])
+        if v.kind == "dict":
+            return render.Val("dict", [(k, val(x)) for k, x in v.v])
+        return v
+    return [(res, cmd, [(n, val(v)) for n, v in args]) for res, cmd, args in ast]
+
+
 def strip_lines(canon):
     return re.sub(r"e\(\d+,", "e(", re.sub(r",\d+,\[", ",[", re.sub(r"arg\(([0-9a-f-]+),\d+,", r"arg(\1,", canon)))
 
@@ -42,8 +62,14 @@ def run(ctx):
         # a second, plain layout of the same program: the tree must be the same apart from line numbers
         src2, exp2 = render.render(ast, rng, "\n", wild=False)
         srcs.append(src2); expected.append(exp2); kinds.append("render-plain")
+        if i % 3 == 0:
+            # the same program with other blanks inside its strings, in the same plain layout: loaded right after its sibling
+            src3, exp3 = render.render(respace(ast, rng), rng, "\n", wild=False)
+            srcs.append(src3); expected.append(exp3); kinds.append("render-respaced")
         for _ in range(2):
             srcs.append(parsing.mutate(rng, src)); expected.append(None); kinds.append("mutation")
+    for h in HISTORY:
+        srcs.append(h); expected.append(None); kinds.append("history")
     for i in range(ctx.budget(150, 8000)):
         srcs.append(parsing.rand_tokens(rng)); expected.append(None); kinds.append("token-soup")
         srcs.append(parsing.rand_prog(rng)); expected.append(None); kinds.append("loose-program")
@@ -62,6 +88,15 @@ def run(ctx):
             ctx.disagree("parse:" + kind, {"source": src}, real[:600], ans2[:600])
         if real.startswith("raw:"):
             ctx.fail("parsing raised %s instead of SyntaxError" % real[4:], {"source": src})
+        # the same text loaded as a program (Program.from_source with a library that has every command name): the commands are handed exactly
+        # what was parsed - names, values with their kinds, nesting, tuples, line numbers - whatever was loaded before in this process
+        want = parsing.expected_load(src)
+        if want is not None:
+            got = parsing.real_load(src)
+            ctx.count("loaded_through_from_source")
+            if got != want:
+                ctx.fail("Program.from_source hands the commands something else than what the text says (%s)" % (
+                    got if not got.startswith("ok") else "values / names / lines differ"), {"source": src, "parsed": want[:800], "loaded": got[:800]})
         if exp is not None:
             if real != exp:
                 ctx.fail("a well-formed rendering does not parse to the program that was written (%s)" % (
